@@ -233,6 +233,53 @@ pub fn run(tier: &str, seed: u64, replay: Option<String>) -> i32 {
             }
         }
     }
+    // the conversion API without the catalogue merge: intact files, and every GAP / CONSTRUCTION /
+    // MATERIAL definition renamed consistently to the name of a catalogue entry of its kind
+    // (a project may legally define its own element under a catalogue name)
+    let mut n_nocat = 0usize;
+    let mut nocat_jobs: Vec<DJob> = vec![];
+    if let Ok(cat) = hulc::ctehexml::load_lider_catalog() {
+        let cat_names: Vec<(&str, Vec<String>)> = vec![
+            ("GAP", cat.wincons.keys().cloned().collect()),
+            ("MATERIAL", cat.materials.keys().take(6).cloned().collect()),
+            ("GLASS-TYPE", cat.glasses.keys().take(4).cloned().collect()),
+            ("NAME-FRAME", cat.frames.keys().take(4).cloned().collect()),
+        ];
+        for f in &files {
+            line_jobs.push(DJob { file: f.rel.clone(), edit: Edit::Intact, cell: format!("nocat|intact|{}", f.rel), level: 0, e2e: false, closure: true, cost: f.text.len() });
+            let lines = diskfault::split_lines(&f.text);
+            let mut per_type: BTreeMap<String, usize> = BTreeMap::new();
+            let mut blocks = diskfault::scan_blocks(&lines);
+            rng.shuffle(&mut blocks);
+            for b in blocks {
+                if let Some((_, names)) = cat_names.iter().find(|(t, _)| *t == b.btype) {
+                    // a few definitions of each kind per file (all of them in thorough)
+                    let seen = per_type.entry(b.btype.clone()).or_insert(0);
+                    *seen += 1;
+                    if !thorough && *seen > 2 {
+                        continue;
+                    }
+                    for (k, n) in names.iter().enumerate() {
+                        if !thorough && k >= 3 {
+                            break;
+                        }
+                        n_nocat += 1;
+                        for level in [0u64, 1] {
+                            nocat_jobs.push(DJob {
+                                file: f.rel.clone(),
+                                edit: Edit::RenameEverywhere { line: b.start, new_name: n.clone() },
+                                cell: format!("renamed_to_catalogue_name|{}|{}", b.btype, level),
+                                level,
+                                e2e: false,
+                                closure: true,
+                                cost: f.text.len(),
+                            });
+                        }
+                    }
+                }
+            }
+        }
+    }
     let clone_budget = if thorough { 60_000 } else { 4_500 };
     if clone_jobs.len() > clone_budget {
         rng.shuffle(&mut clone_jobs);
@@ -241,6 +288,7 @@ pub fn run(tier: &str, seed: u64, replay: Option<String>) -> i32 {
     let n_clone = clone_jobs.len();
     let mut line_picked = diskrun::stratified(line_jobs, if thorough { 25 } else { 1 }, &mut rng);
     line_picked.extend(clone_jobs);
+    line_picked.extend(nocat_jobs);
     let n_line = line_picked.len();
     jobs.extend(line_picked);
     eprintln!("[C02] + {} generated projects (option variations) + {} (single-line damage)", n_opt, n_line);
@@ -391,6 +439,7 @@ pub fn run(tier: &str, seed: u64, replay: Option<String>) -> i32 {
     extra.insert("generated_projects_single_line_damage".into(), json!(n_line));
     extra.insert("unused_copy_damage_space".into(), json!(n_clone_space));
     extra.insert("unused_copy_damage_run".into(), json!(n_clone));
+    extra.insert("definitions_renamed_to_catalogue_names".into(), json!(n_nocat));
     extra.insert("fault_kinds_fired".into(), json!(fired));
     extra.insert("outcome_classes".into(), json!(classes));
     extra.insert("models_returned_after_a_fault".into(), json!(ok_models_after_fault));
